@@ -14,7 +14,8 @@ from .. import gen_tree as GT
 from ..common import call, mk_result, run_cli, viol, internal_violations
 from ..model import Model, cli_discovers_root_top
 from ..oracles import check_strict_verify, check_cli_agrees, write_violations
-from ..seam import Seam
+from .. import grammar as G
+from ..seam import Seam, orig as _o
 from ..world import World, blocking_manifest
 
 ID = 'C01'
@@ -48,6 +49,11 @@ def generate(rng, tier, idx, keep_going=False):
             lm = rng.choice([-4, -3, -2, -1, 0, 1, 2, 3]) + rng.choice([0, 0, 0.5])
         api = 'both' if top == 'Manifest' and rng.random() < 0.6 else 'lib'
         ops.append({'op': 'verify', 'sub': sub, 'last_mtime': lm, 'api': api, 'slash': rng.random() < 0.25})
+    for o in ops:
+        if o['api'] == 'both' and rng.random() < 0.4:
+            # one invocation with several paths from different Manifest trees: a small consistent tree and the tree
+            # under test, in either order
+            o['multi'] = rng.choice(['first', 'last'])
     lms = [o['last_mtime'] for o in ops if o.get('last_mtime') is not None]
     if lms and rng.random() < 0.5:
         # same-size tampering stamped shortly AFTER a last_mtime of the run: within the same whole second, the next
@@ -59,6 +65,19 @@ def generate(rng, tier, idx, keep_going=False):
     return {'prop': ID, 'order_key': '%016x' % rng.getrandbits(64), 'top': top,
             'chunks': rng.choice([None, None, None, 'mixed', 'tiny', 4096]),      # raw reads may legally come back short
             'tree': g['tree'], 'manifests': g['manifests'], 'muts': muts, 'ops': ops}
+
+
+def _other_tree(w):
+    """A small consistent Manifest tree next to the world (not inside it)."""
+    t0 = os.path.join(w.base, '.tree0')
+    if not os.path.isdir(t0):
+        _o['os.mkdir'](t0)
+        _o['os.mkdir'](os.path.join(t0, 'sub'))
+        with _o['open'](os.path.join(t0, 'sub', 'f'), 'w') as f:
+            f.write('clean')
+        with _o['open'](os.path.join(t0, 'Manifest'), 'w') as f:
+            f.write(G.dump([{'tag': 'DATA', 'path': 'sub/f', 'size': 5, 'sums': G.digests(b'clean', ['SHA256'])}]))
+    return t0
 
 
 def execute(sc):
@@ -104,7 +123,11 @@ def execute(sc):
                     zones['cli-skipped-discovery-obstacle'] = zones.get('cli-skipped-discovery-obstacle', 0) + 1
                     real_sub = False
                 if op.get('api') == 'both' and lm is None and real_sub:
-                    cli = run_cli(['verify', os.path.join(w.root, sub) if sub else w.root])
+                    target = os.path.join(w.root, sub) if sub else w.root
+                    cli = run_cli(['verify', target])
+                    if op.get('multi'):
+                        t0 = _other_tree(w)
+                        cli2 = run_cli(['verify'] + ([target, t0] if op['multi'] == 'first' else [t0, target]))
             results.append(r)
             vs, zone = check_strict_verify(v, r, 'verify(%r,last_mtime=%r)' % (sub, lm))
             violations += vs
@@ -122,6 +145,9 @@ def execute(sc):
                     results.append(('INTERNAL', cli['name'], cli['exc']))
                 violations += check_cli_agrees(r, cli, 'verify %r' % sub)
                 counters['cli'] = counters.get('cli', 0) + 1
+                if op.get('multi'):
+                    violations += check_cli_agrees(r, cli2, 'verify %r with a second, consistent tree on the same command line (%s)' % (sub, op['multi']))
+                    counters['cli-multi-path'] = counters.get('cli-multi-path', 0) + 1
             outcome.append([v.kind, r[0], r[1] if r[0] != 'ok' else repr(r[1]),
                             (cli or {}).get('rc')])
         violations += internal_violations(results)
